@@ -113,13 +113,19 @@ def make_pulse(spec):
     if k == "detramp":
         _, d, a, d0, d1, ph = spec
         return Pulse.ConstantAmplitude(a, RampWaveform(d, d0, d1), ph)
+    if k == "kaiser":
+        # a Kaiser window of the given shape parameter whose peak is the given value (just inside typical amplitude limits)
+        from pulser.waveforms import KaiserWaveform
+        _, d, peak, beta, det, ph = spec
+        p1 = float(np.max(KaiserWaveform(d, 1.0, beta).samples.as_array(detach=True)))
+        return Pulse.ConstantDetuning(KaiserWaveform(d, peak / p1, beta), det, ph)
     raise ValueError(k)
 
 
 def gen_pulse_spec(rng):
     d = pick(rng, [4, 16, 20, 50, 52, 100, 101, 200, 333, 400, 1000, 7, 1])
     ph = pick(rng, [0, 0, 1.0, math.pi, 4.5, -1.0])
-    k = pick(rng, ["const", "const", "ramp", "black", "detramp"])
+    k = pick(rng, ["const", "const", "ramp", "black", "detramp", "kaiser"])
     if rng.random() < 0.02:
         # non-finite values (given directly, or produced by a one-sample ramp): never acceptable on any channel
         return pick(rng, [("const", d, float("nan"), 0.0, ph, 0), ("const", d, 1.0, float("inf"), ph, 0), ("const", d, 1.0, float("nan"), ph, 0),
@@ -130,6 +136,8 @@ def gen_pulse_spec(rng):
         return ("ramp", max(d, 2), pick(rng, [0.0, 1.0, 10.0]), pick(rng, [0.0, 5.0, 15.7, 16.0]), pick(rng, [0.0, -10.0]), ph)
     if k == "black":
         return ("black", max(d, 4), pick(rng, [0.5, math.pi, 6.0]), pick(rng, [0.0, 3.0]), ph)
+    if k == "kaiser":
+        return ("kaiser", pick(rng, [7, 22, 50, 98, 101, 333, 52, 100, 30]), pick(rng, [8.0, 9.9, 12.5, 15.6, 48.0, 59.0]), pick(rng, [14.0, 1.0, 3.0, 8.0, 20.0, 1.0]), pick(rng, [0.0, -3.0]), ph)
     return ("detramp", max(d, 2), pick(rng, [1.0, 4.0]), pick(rng, [-20.0, -30.0, 0.0]), pick(rng, [20.0, 10.0, 0.0]), ph)
 
 
